@@ -3,7 +3,13 @@ package main
 // C19: VerifyAuthenticity over a pool of look-alike certificates, exhaustively.
 
 import (
+	"bytes"
+	"crypto"
+	"crypto/rand"
+	"crypto/sha256"
 	"crypto/x509"
+	"crypto/x509/pkix"
+	"encoding/asn1"
 	"errors"
 	"fmt"
 	"math/big"
@@ -59,6 +65,35 @@ func buildTrustPool() []poolCert {
 	}
 	// a byte-identical copy of A (re-parsed: another pointer, same bytes)
 	out = append(out, poolCert{der: a.Cert.Raw, name: "A-identical-copy", abs: out[0].abs})
+	// the same to-be-signed content under another signature value: signed once more by the CA (ECDSA signing is randomised),
+	// and with a damaged signature (parsing does not verify it) — every field equal, the certificate is not the same bytes
+	var outer struct {
+		TBS asn1.RawValue
+		Alg pkix.AlgorithmIdentifier
+		Sig asn1.BitString
+	}
+	if _, err := asn1.Unmarshal(a.Cert.Raw, &outer); err != nil {
+		panic(err)
+	}
+	h := sha256.Sum256(outer.TBS.FullBytes)
+	sig2, err := ca1.Key.Priv.Sign(rand.Reader, h[:], crypto.SHA256)
+	if err != nil {
+		panic(err)
+	}
+	for i, sig := range [][]byte{sig2, append(append([]byte{}, outer.Sig.Bytes[:len(outer.Sig.Bytes)-1]...), outer.Sig.Bytes[len(outer.Sig.Bytes)-1]^1)} {
+		o2 := outer
+		o2.Sig = asn1.BitString{Bytes: sig, BitLength: 8 * len(sig)}
+		der, err := asn1.Marshal(o2)
+		if err != nil {
+			panic(err)
+		}
+		if bytes.Equal(der, a.Cert.Raw) {
+			panic("twin certificate is identical")
+		}
+		x := parseFresh(der)
+		out = append(out, poolCert{der: der, name: []string{"A-same-content-signed-again", "A-same-content-damaged-signature"}[i],
+			abs: []int{ders.id(x.Raw), subj.id(x.RawSubject), keys.id(x.RawSubjectPublicKeyInfo), sers.id(x.SerialNumber.Bytes()), issu.id(x.RawIssuer)}})
+	}
 	return out
 }
 
@@ -112,12 +147,12 @@ func genC19(r *Runner) {
 	}
 	idx := make([]int, 0, n)
 	if quick {
-		idx = []int{0, 1, 2, 3, 4, 6, 9}
+		idx = []int{0, 1, 3, 4, 6, 9, 10}
 	} else {
 		for i := 0; i < n; i++ {
 			idx = append(idx, i)
 		}
-		maxChain, maxTrust = 4, 3
+		maxChain, maxTrust = 3, 3 // 12 certificates: 1884 chains x 1885 trust lists
 	}
 	_ = sub
 	var chains, trusts [][]int
